@@ -47,6 +47,8 @@ pub enum VT {
     Seq(Vec<(VT, bool)>),
     Cho(Vec<VT>),
     Of(Box<VT>),
+    /// SET OF
+    SetOf(Box<VT>),
 }
 
 impl VT {
@@ -62,6 +64,7 @@ impl VT {
             VT::Seq(ms) => format!("S({})", ms.iter().map(|(t, o)| format!("{}{}", t.label(), if *o { "?" } else { "" })).collect::<Vec<_>>().join(",")),
             VT::Cho(a) => format!("C({})", a.iter().map(|t| t.label()).collect::<Vec<_>>().join(",")),
             VT::Of(e) => format!("O({})", e.label()),
+            VT::SetOf(e) => format!("o({})", e.label()),
         }
     }
     /// ASN.1 text; with `named`, every constructed type below the top is a type assignment of its own (pushed to `defs`)
@@ -77,6 +80,7 @@ impl VT {
             VT::Seq(ms) => format!("SEQUENCE {{ {} }}", ms.iter().enumerate().map(|(i, (t, o))| format!("m{i} {}{}", t.text(named, defs, false), if *o { " OPTIONAL" } else { "" })).collect::<Vec<_>>().join(", ")),
             VT::Cho(a) => format!("CHOICE {{ {} }}", a.iter().enumerate().map(|(i, t)| format!("a{i} {}", t.text(named, defs, false))).collect::<Vec<_>>().join(", ")),
             VT::Of(e) => format!("SEQUENCE OF {}", e.text(named, defs, false)),
+            VT::SetOf(e) => format!("SET OF {}", e.text(named, defs, false)),
         };
         if named && !top {
             let n = format!("Nd{}", defs.len());
@@ -130,7 +134,7 @@ impl VT {
                 }).collect()
             }
             VT::Cho(a) => a.iter().enumerate().flat_map(|(i, t)| t.values().into_iter().map(move |(tx, v)| (format!("a{i}:{tx}"), Val::Choice(format!("a{i}"), Box::new(v))))).collect(),
-            VT::Of(e) => {
+            VT::Of(e) | VT::SetOf(e) => {
                 let ev = e.values();
                 let mut out = vec![("{ }".to_string(), Val::List(vec![])), (format!("{{ {} }}", ev[0].0), Val::List(vec![ev[0].1.clone()]))];
                 let second = ev.get(1).unwrap_or(&ev[0]);
@@ -149,7 +153,7 @@ impl VT {
         match self {
             VT::Seq(ms) => 1 + ms.iter().map(|(t, _)| t.depth()).max().unwrap_or(0),
             VT::Cho(a) => 1 + a.iter().map(|t| t.depth()).max().unwrap_or(0),
-            VT::Of(e) => 1 + e.depth(),
+            VT::Of(e) | VT::SetOf(e) => 1 + e.depth(),
             _ => 0,
         }
     }
@@ -177,7 +181,7 @@ pub fn value_class(c: &Case) -> String {
     }
     fn of_constructed(t: &VT) -> bool {
         match t {
-            VT::Of(e) => matches!(**e, VT::Cho(_) | VT::Seq(_) | VT::Of(_)) || of_constructed(e),
+            VT::Of(e) | VT::SetOf(e) => matches!(**e, VT::Cho(_) | VT::Seq(_) | VT::Of(_) | VT::SetOf(_)) || of_constructed(e),
             VT::Seq(ms) => ms.iter().any(|(t, _)| of_constructed(t)),
             VT::Cho(a) => a.iter().any(of_constructed),
             _ => false,
@@ -234,6 +238,12 @@ pub fn der_vt(v: &Val, t: &VT) -> Option<Vec<u8>> {
             }
             tlv(0, true, 16, &c)
         }
+        // DER: the encodings of the elements of a SET OF in ascending order
+        (VT::SetOf(e), Val::List(es)) => {
+            let mut encs: Vec<Vec<u8>> = es.iter().map(|x| der_vt(x, e)).collect::<Option<Vec<_>>>()?;
+            encs.sort();
+            tlv(0, true, 17, &encs.concat())
+        }
         _ => return None,
     })
 }
@@ -254,6 +264,9 @@ pub fn value_trees(thorough: bool) -> Vec<VT> {
             v.push(VT::Seq(vec![(a.clone(), false)]));
             v.push(VT::Seq(vec![(a.clone(), true)]));
             v.push(VT::Of(Box::new(a.clone())));
+            if matches!(a, VT::Int | VT::Bool) || matches!(a, VT::Seq(ms) if ms.len() == 1 && !ms[0].1) {
+                v.push(VT::SetOf(Box::new(a.clone())));
+            }
             for b in second {
                 v.push(VT::Seq(vec![(a.clone(), false), (b.clone(), false)]));
                 v.push(VT::Seq(vec![(a.clone(), false), (b.clone(), true)]));
@@ -275,6 +288,7 @@ pub fn value_trees(thorough: bool) -> Vec<VT> {
         VT::Of(Box::new(VT::Int)),
         VT::Of(Box::new(VT::Bool)),
         VT::Seq(vec![(VT::Null, false), (VT::Int, false)]),
+        VT::SetOf(Box::new(VT::Int)),
     ];
     let mut kids = leaves.clone();
     kids.extend(reps.clone());
@@ -510,6 +524,7 @@ fn eval(e: &syn::Expr, env: &Env) -> Result<Val, String> {
             match (segs.len(), first.as_str(), last.as_str()) {
                 (2, "Integer", "from") | (2, "String", "from") | (2, "Utf8String", "from") | (2, "UniversalString", "new") => eval(args[0], env),
                 (2, _, "try_from") => eval(args[0], env),
+                (2, "SetOf", "from_vec") if args.len() == 1 => eval(args[0], env),
                 (2, "Oid", "const_new") | (2, "Oid", "new") => match eval(args[0], env)? {
                     Val::List(l) => {
                         let mut arcs = vec![];
@@ -1240,7 +1255,7 @@ pub fn cases(tier: Tier) -> Vec<Case> {
                 defs.push(format!("Top ::= {top}"));
                 let prelude = defs.join("\n");
                 for (i, (text, val)) in t.values().into_iter().enumerate() {
-                    base.push(Case { notation: "tree".into(), ty: "Top".into(), prelude: prelude.clone(), value: text, expected: val, route: "assign".into(), feature: format!("{}|{}", match &t { VT::Seq(_) => "top=SEQUENCE", VT::Cho(_) => "top=CHOICE", _ => "top=SEQUENCE-OF" }, if named { "named-types" } else { "inline-types" }), vt: Some(t.clone()) });
+                    base.push(Case { notation: "tree".into(), ty: "Top".into(), prelude: prelude.clone(), value: text, expected: val, route: "assign".into(), feature: format!("{}|{}", match &t { VT::Seq(_) => "top=SEQUENCE", VT::Cho(_) => "top=CHOICE", VT::SetOf(_) => "top=SET-OF", _ => "top=SEQUENCE-OF" }, if named { "named-types" } else { "inline-types" }), vt: Some(t.clone()) });
                     let _ = i;
                 }
             }
